@@ -80,7 +80,7 @@ type Node struct {
 	L     *LabelVal // EvBind, EvNew
 	Succ  []*Node
 	Ops   string // operation set known at this point (for reports)
-	Lag   int       // EvJrec: 0 = the record names the next emission, 1 = the emission just made
+	Lag   int    // EvJrec: 0 = the record names the next emission, 1 = the emission just made
 	// Jrec is the jump record that annotates this EMIT (set by Link).
 	Jrec   *Node
 	endian int
